@@ -227,6 +227,14 @@ def api_level(ctx, thorough):
                     for (t, which) in [c for c in b2.get("baseline_callbacks", []) if c[1].split(":")[0] in ("ac", "zone")][:3]:
                         for k in (1, 9):
                             jobs.append((gen, name, ("tick", t + k, 0), True, ref_view, 10, early))
+            if name == "plain":
+                # a command is in flight on a stalled link (its write accepted by the transport, the caller waiting in drain()) when
+                # shutdown() is called; a new session a second later: nothing of the old session is transmitted in it
+                # (the stalled link either lets the close through, or its far end answers the close with a reset: the waiting command's
+                # write then fails AFTER shutdown() has begun)
+                for kind in ("block", "blockreset"):
+                    for k in (0, 1, 3):
+                        jobs.append((gen, name, ("tick", 64, k), True, ref_view, 10, dict(faults=[(60, kind)], calls=[(62, "power"), (63, "zone")])))
             if sc.get("calls") and sc.get("faults"):
                 # commands are waiting for a connection when shutdown() is called, and the application starts a new session a second later
                 # (well inside the commands' 30 s lifetime): nothing of the old session may be transmitted in the new one
